@@ -3,7 +3,7 @@
 the real FeelNumber operations (replay driver, crates path-patched to the repository's working tree, C sources rebuilt when
 they change) are compared with CPython's decimal module configured as IEEE 754-2008 decimal128 (prec 34, half-even,
 Emax 6144, Emin -6143, clamp) on a fixed grid of operands: every sign, 1..34 digit coefficients, exponents from the
-subnormal to the overflow edge, exact ties and near-ties with long sticky tails, operands up to 40 orders of magnitude apart.
+subnormal to the overflow edge, exact ties and near-ties with long sticky tails, operands up to 72 orders of magnitude apart, exact results at the overflow / underflow edges.
 
 usage: numdiff.py [--size quick|thorough] [--seed N]
 prints `numdiff cases=N failures=M known=K` and one `FAIL ...` line per (first few) failures; exit 0 always (the caller decides).
@@ -217,6 +217,36 @@ def cases(size, seed):
     for a in ('1.0000001', '0.9999999', '1.000001', '1.00000000001', '1.0001', '0.99999', '-1.0000001', '1.5', '0.75'):
         for b in ('1E+6', '1000000', '1E+4', '10000', '2E+5', '5E+3', '1E+3', '-1E+6', '3E+5', '-2E+4', '1.2E+5', '1E+2'):
             out.append(('pow', Decimal(a), Decimal(b)))
+    # operands far apart (C02: "operands 34+ orders of magnitude apart"): a short coefficient against a full 34-digit one whose first digit is
+    # the rounding digit or lies beyond it - exponent distances 30..72 around the places where the library switches to a sticky digit
+    # (33, 34, 35 digits of padding, and twice that: 66..70)
+    longs = ['6' + '0' * 33, '5' + '0' * 33, '5' + '0' * 32 + '1', '4' + '9' * 33, '9' * 34, '1' + '0' * 33, '1234567890123456789012345678901234', '5' * 34]
+    for big in ('1', '2', '5', '9', '10', '15', '99', '1000000000000000000000000000000000', '9999999999999999999999999999999999'):
+        for gap in ((31, 32, 33, 34, 35, 36, 66, 67, 68, 69, 70) if size == 'quick' else tuple(range(28, 74))):
+            for lo in longs:
+                for e0 in ((0,) if size == 'quick' else (0, -3000, 3000)):
+                    a = Decimal('%sE%d' % (big, e0 + gap))
+                    b = Decimal('%sE%d' % (lo, e0))
+                    for (x, y) in ((a, b), (a, -b), (-a, b), (b, a)):
+                        out.append(('add', x, y))
+                        out.append(('sub', x, y))
+    # exact results at the overflow and underflow edges: short coefficients whose adjusted exponent is 6143 / 6144 / 6145 (and -6143 / -6176 / -6177)
+    for c in ('1', '2', '3', '9', '1.5', '2.5', '9.9', '1.234'):
+        for (e, n) in ((3072, 2), (2048, 3), (1536, 4), (3071, 2), (3073, 2), (2049, 3), (1024, 6), (-3072, 2), (-3088, 2), (-3089, 2), (-2059, 3), (-3071, 2), (6144, 1), (-6143, 1), (-6176, 1)):
+            for s_ in ('', '-'):
+                out.append(('pow', Decimal('%s%sE%d' % (s_, c, e)), Decimal(n)))
+        for (ea, eb) in ((3072, 3072), (6144, 0), (3000, 3144), (3000, 3145), (-3072, -3072), (-3088, -3088), (-6143, -33), (-6143, -34), (6111, 33), (6111, 34)):
+            out.append(('mul', Decimal('%sE%d' % (c, ea)), Decimal('%sE%d' % (c, eb))))
+            out.append(('div', Decimal('%sE%d' % (c, ea)), Decimal('%sE%d' % (c, -eb))))
+        for e in (12288, 12286, 12290, -12286, -12352, -12354):
+            out.append(('sqrt', Decimal('%sE%d' % (c, e)) if abs(e) <= 6144 else Decimal('%sE%d' % (c, 6144 if e > 0 else -6176)), None))
+    # only operands that ARE decimal128 values (the generated families above may name values below the subnormal step)
+    def rep(v):
+        if v is None:
+            return True
+        w = CTX.create_decimal(v)
+        return w.is_finite() and w == v and CTX.plus(w) == v
+    out = [c for c in out if rep(c[1]) and rep(c[2])]
     return out
 
 
